@@ -34,4 +34,10 @@ CASES = [
     dict(expect="fire", desc="seed C02-r3/2: add_ref takes its reference when the window is created", names="G1-addref", edits=[dict(file="reactivex/internal/utils.py",
          old="    def subscribe(\n        observer: abc.ObserverBase[Any], scheduler: abc.SchedulerBase | None = None\n    ) -> abc.DisposableBase:\n        return CompositeDisposable(r.disposable, xs.subscribe(observer))",
          new="    ref = r.disposable\n\n    def subscribe(\n        observer: abc.ObserverBase[Any], scheduler: abc.SchedulerBase | None = None\n    ) -> abc.DisposableBase:\n        return CompositeDisposable(ref, xs.subscribe(observer))")]),
+    dict(expect="fire", desc="seed C02-r5/2: add_ref returns only the inner subscription for a closed window", names="G1-addref", edits=[dict(file="reactivex/internal/utils.py",
+         old="        return CompositeDisposable(r.disposable, xs.subscribe(observer))",
+         new="        ref = r.disposable\n        subscription = xs.subscribe(observer)\n        if getattr(xs, \"is_stopped\", False):\n            return subscription\n        return CompositeDisposable(ref, subscription)")]),
+    dict(expect="silent", desc="add_ref: reference and subscription named first", edits=[dict(file="reactivex/internal/utils.py",
+         old="        return CompositeDisposable(r.disposable, xs.subscribe(observer))",
+         new="        ref = r.disposable\n        subscription = xs.subscribe(observer)\n        return CompositeDisposable(ref, subscription)")]),
 ]
